@@ -3,9 +3,10 @@
    Model: Model/Descriptor.v; Core's algorithm: Spec/CoreDescChecksum.v; the character
    sets and calc_poly_mod constants are regenerated from descriptor.py on every run
    (Generated/DescConsts.v). *)
-From Coq Require Import Permutation.
-From V Require Import Base.Prelude Generated.DescConsts Model.Descriptor Spec.CoreDescChecksum
-  Proofs.DescChecksumP Proofs.DescDetectP Proofs.DescriptorP.
+From Coq Require Import String Permutation.
+From V Require Import Base.Prelude Base.Disp Generated.DescConsts Model.Descriptor Model.DescriptorText
+  Spec.CoreDescChecksum Proofs.DescChecksumP Proofs.DescDetectP Proofs.DescriptorP Proofs.DescriptorTextP
+  Proofs.DescriptorParseP Proofs.DescriptorAddrP Proofs.DescriptorPathP.
 
 (* (1) calc_core_checksum is Bitcoin Core's DescriptorChecksum on EVERY text: the same 8
    characters when all characters are in the input charset, an error (Core: empty string)
@@ -50,17 +51,19 @@ Print Assumptions C16_regex_class_is_checksum_charset.
    exists), derive (xpub/account/offset -> 33-byte key), sha256, p2wsh_address.            *)
 
 (* (3) text round trip over the fields the regular expressions cut out of repr(d):
-   parsing the constructor's own output (with and without the checksum) gives back the same
-   descriptor: same m, same sorted records, same text, checksum and network.  Premises: the
-   re-encoded xpub parses to itself (hd_idempotent), fingerprints in lower case and paths
-   starting with "m" (the constructor accepts more, see C16_roundtrip_needs_lowercase_xfp),
-   the account children exist, m <= n. *)
+   WHATEVER the constructor accepts (any spelling of fingerprints and paths it lets through,
+   sorted or not, with or without a supplied checksum), parsing its own output (with and
+   without the checksum) gives back the same descriptor: same m, same records, same text,
+   checksum and network.  Since /repo 03838d6 the constructor rejects m > n and account
+   indexes outside [0, 2^31) and normalises fingerprint case and the path prefix, so the
+   former side conditions (lower-case fingerprints, paths starting with "m", m <= n) are gone.
+   Premises about hd.py: the re-encoded xpub parses to itself (hd_idempotent), the path check
+   is stable under the rewriting "m" + path.strip()[1:] (path_norm_ok), the account children
+   exist.  The same at the level of the TEXT: C16_parse_text_roundtrip below. *)
 Theorem C16_descriptor_text_roundtrip :
-  forall path_ok hdparse child_ok m recs d,
-  hd_idempotent hdparse ->
-  construct path_ok hdparse m recs [] true = Ok d ->
-  m <= zlen recs ->
-  Forall lower_xfp recs -> Forall path_m recs ->
+  forall path_ok hdparse child_ok m recs cs srt d,
+  hd_idempotent hdparse -> path_norm_ok path_ok ->
+  construct path_ok hdparse m recs cs srt = Ok d ->
   Forall (fun kr => child_ok (kr_xpub kr) (kr_idx kr) = true) (d_recs d) ->
   parse_struct path_ok hdparse child_ok (d_m d) (fields_of d) (d_checksum d) = Ok d /\
   parse_struct path_ok hdparse child_ok (d_m d) (fields_of d) [] = Ok d.
@@ -92,7 +95,8 @@ Theorem C16_constructed_descriptor :
     d_recs d = (if srt then sort_by kr_xpub (map (normed path_ok hdparse) recs)
                 else map (normed path_ok hdparse) recs) /\
     d_m d = m /\ d_net d = n /\ d_text d = render_text m (d_recs d) /\
-    desc_checksum (d_text d) = Ok (d_checksum d) /\ (cs = [] \/ cs = d_checksum d).
+    desc_checksum (d_text d) = Ok (d_checksum d) /\ (cs = [] \/ cs = d_checksum d) /\
+    m <= zlen recs.
 Proof. exact construct_ok. Qed.
 Print Assumptions C16_constructed_descriptor.
 
@@ -167,12 +171,24 @@ Proof.
   vm_compute. reflexivity.
 Qed.
 
-(* an upper-case fingerprint is accepted by the constructor, but its own text is rejected
-   by parse (the key-record regex wants [0-9a-f]{8}) *)
-Example C16_roundtrip_needs_lowercase_xfp :
+(* an upper-case fingerprint is accepted by the constructor, stored and printed in lower case,
+   and its own text is read back (before /repo 03838d6 parse rejected that text) *)
+Example C16_uppercase_xfp_is_normalised :
   exists d, construct ex_path_ok ex_hdparse 1 [ex_rec 65 true] [] true = Ok d /\
-    parse_struct ex_path_ok ex_hdparse ex_child_ok (d_m d) (fields_of d) (d_checksum d) = Err.
-Proof. eexists. split; [vm_compute; reflexivity|]. vm_compute. reflexivity. Qed.
+    d_recs d = [ex_rec 65 false] /\
+    parse_struct ex_path_ok ex_hdparse ex_child_ok (d_m d) (fields_of d) (d_checksum d) = Ok d.
+Proof.
+  eexists. split; [vm_compute; reflexivity|]. split; [vm_compute; reflexivity|].
+  vm_compute. reflexivity.
+Qed.
+
+(* m > n and an account index outside [0, 2^31) are refused by the constructor *)
+Example C16_constructor_refuses_bad_threshold_and_index :
+  construct ex_path_ok ex_hdparse 3 [ex_rec 65 false; ex_rec 66 false] [] true = Err /\
+  construct ex_path_ok ex_hdparse 1
+    [{| kr_xfp := kr_xfp (ex_rec 65 false); kr_path := kr_path (ex_rec 65 false);
+        kr_xpub := kr_xpub (ex_rec 65 false); kr_idx := 2147483648 |}] [] true = Err.
+Proof. split; vm_compute; reflexivity. Qed.
 
 (* two records with the same xpub and different account indexes: the text depends on the
    order in which they are supplied *)
@@ -181,3 +197,321 @@ Example C16_order_needs_distinct_xpubs :
   let b := {| kr_xfp := kr_xfp a; kr_path := kr_path a; kr_xpub := kr_xpub a; kr_idx := 5 |} in
   construct ex_path_ok ex_hdparse 1 [a; b] [] true <> construct ex_path_ok ex_hdparse 1 [b; a] [] true.
 Proof. vm_compute. intros H. discriminate H. Qed.
+
+(* =======================================================================================
+   The TEXT layer (Model/DescriptorText.v): int(), split / join, the key-record regular
+   expression, parse_full / partial / any_key_record, the outer regular expression
+   (re.fullmatch since /repo dfc700c) and P2WSHSortedMulti.parse itself on text.
+   json.loads (the Specter-Desktop account-map branch of parse) is a further universally
+   quantified function.                                                                    *)
+
+(* f"{n}" is read back by int() (CPython's limit of 4300 digits is in the model) *)
+Theorem C16_int_reads_back_fstring : forall z, - 2 ^ 4300 < z < 2 ^ 4300 -> py_int (dec z) = Ok z.
+Proof. exact py_int_dec. Qed.
+Print Assumptions C16_int_reads_back_fstring.
+
+(* (1) the text is  wsh(sortedmulti(  m  ,  key expressions joined by commas  ))  where a key
+   expression is  [ fingerprint path-without-m ] xpub / account_index / *  *)
+Theorem C16_descriptor_text_shape : forall m recs, recs <> [] ->
+  render_text m recs = s2z "wsh(sortedmulti(" ++ dec m ++ 44 :: records_text recs ++ s2z "))".
+Proof. exact render_text_shape. Qed.
+Print Assumptions C16_descriptor_text_shape.
+
+(* the checksum of a constructed descriptor is Core's DescriptorChecksum of its text, and is a
+   well-formed checksum group of the parse regex (8 characters of the class) *)
+Theorem C16_constructed_checksum_is_core : forall path_ok hdparse m recs cs srt d,
+  construct path_ok hdparse m recs cs srt = Ok d ->
+  d_checksum d = core_descriptor_checksum (d_text d) /\ cs_ok (d_checksum d) /\
+  d_text d = render_text m (d_recs d).
+Proof. exact constructed_checksum_is_core. Qed.
+Print Assumptions C16_constructed_checksum_is_core.
+
+(* the text-only part of parse_full_key_record (split on "/", "*", int(), the regex) reads a
+   printed key expression back field by field *)
+Theorem C16_key_record_text_roundtrip : forall kr,
+  text_safe kr -> fields_of_text (key_expr kr) = Ok (field_of kr).
+Proof. exact fields_of_text_key_expr. Qed.
+Print Assumptions C16_key_record_text_roundtrip.
+
+(* the part of parse that follows the outer regex, run on the groups of a printed descriptor,
+   is the structured parser of Model/Descriptor.v on the fields *)
+Theorem C16_parse_groups_refines_struct : forall path_ok hdparse child_ok m recs cs,
+  recs <> [] -> Forall text_safe recs -> - 2 ^ 4300 < m < 2 ^ 4300 ->
+  parse_groups path_ok hdparse child_ok (dec m) (records_text recs) cs =
+  parse_struct path_ok hdparse child_ok m (map field_of recs) cs.
+Proof. exact parse_groups_printed. Qed.
+Print Assumptions C16_parse_groups_refines_struct.
+
+(* the records a successful constructor saves are text-safe, given two facts about hd.py:
+   valid paths contain none of  ] , \ # *  and the re-encoded xpub is alphanumeric text *)
+Theorem C16_constructed_records_text_safe : forall path_ok hdparse (child_ok : list Z -> Z -> bool) m recs cs srt d,
+  path_chars_ok path_ok -> hd_alnum hdparse ->
+  construct path_ok hdparse m recs cs srt = Ok d -> Forall text_safe (d_recs d).
+Proof. exact constructed_text_safe. Qed.
+Print Assumptions C16_constructed_records_text_safe.
+
+(* (3) THE ROUND TRIP ON TEXT.  Whatever record set the constructor accepts — any m, any
+   spelling of fingerprints / paths it lets through, sorted or not, with or without a supplied
+   checksum — str(d) and d.descriptor_text, with any white space around them, are parsed by
+   P2WSHSortedMulti.parse to the same descriptor (m, key records, text, checksum, network).
+   Premises are facts about hd.py only (checked on the implementation on every run, predicates
+   path_assumptions / xpub_assumptions): the re-encoded xpub parses to itself and is
+   alphanumeric, valid paths stay valid under "m" + path.strip()[1:] and contain none of
+   ] , \ # * ; and the account children exist. *)
+Theorem C16_parse_text_roundtrip :
+  forall path_ok hdparse child_ok json_descriptor m recs cs srt d w1 w2,
+  hd_idempotent hdparse -> path_norm_ok path_ok -> path_chars_ok path_ok -> hd_alnum hdparse ->
+  construct path_ok hdparse m recs cs srt = Ok d -> m < 2 ^ 4300 ->
+  Forall (fun kr => child_ok (kr_xpub kr) (kr_idx kr) = true) (d_recs d) ->
+  Forall (fun c => is_ws c = true) w1 -> Forall (fun c => is_ws c = true) w2 ->
+  parse_text path_ok hdparse child_ok json_descriptor (w1 ++ desc_repr d ++ w2) = Ok d /\
+  parse_text path_ok hdparse child_ok json_descriptor (w1 ++ d_text d ++ w2) = Ok d.
+Proof. exact parse_text_roundtrip. Qed.
+Print Assumptions C16_parse_text_roundtrip.
+
+(* The two premises about the path check are THEOREMS for C16's transcription of
+   hd.is_valid_bip32_path (Model/DescriptorText.v is_valid_path: lower, strip, replace ' by h,
+   replace // by /, "m" or "m/" + at most 255 components int() reads in [0, 2^31) with an
+   optional h; compared with the implementation on every run, op path_valid). *)
+Theorem C16_valid_path_stays_valid_when_rewritten : path_norm_ok is_valid_path.
+Proof. exact is_valid_path_norm_ok. Qed.
+Print Assumptions C16_valid_path_stays_valid_when_rewritten.
+
+Theorem C16_valid_path_has_no_structural_character : path_chars_ok is_valid_path.
+Proof. exact is_valid_path_chars_ok. Qed.
+Print Assumptions C16_valid_path_has_no_structural_character.
+
+(* so, with the path check as it is, the round trip on text needs only the facts about
+   HDPublicKey (re-encoded xpub parses to itself and is alphanumeric; the account child exists) *)
+Theorem C16_parse_text_roundtrip_valid_paths :
+  forall hdparse child_ok json_descriptor m recs cs srt d w1 w2,
+  hd_idempotent hdparse -> hd_alnum hdparse ->
+  construct is_valid_path hdparse m recs cs srt = Ok d -> m < 2 ^ 4300 ->
+  Forall (fun kr => child_ok (kr_xpub kr) (kr_idx kr) = true) (d_recs d) ->
+  Forall (fun c => is_ws c = true) w1 -> Forall (fun c => is_ws c = true) w2 ->
+  parse_text is_valid_path hdparse child_ok json_descriptor (w1 ++ desc_repr d ++ w2) = Ok d /\
+  parse_text is_valid_path hdparse child_ok json_descriptor (w1 ++ d_text d ++ w2) = Ok d.
+Proof. exact parse_text_roundtrip_paths. Qed.
+Print Assumptions C16_parse_text_roundtrip_valid_paths.
+
+(* parse is parse_plain on the stripped text unless that begins with an opening brace *)
+Theorem C16_parse_text_without_json : forall path_ok hdparse child_ok json_descriptor s c r,
+  strip s = c :: r -> c <> 123 ->
+  parse_text path_ok hdparse child_ok json_descriptor s = parse_plain path_ok hdparse child_ok (c :: r).
+Proof. exact parse_text_nojson. Qed.
+Print Assumptions C16_parse_text_without_json.
+
+(* ACCEPTED IFF EXACT.  What parse accepts is exactly  wsh(sortedmulti( digits , records ))
+   with nothing before or after it and no "#" anywhere, or that text followed by "#" and the
+   checksum of the text the parser prints back (after replacing backslash-slash by slash). *)
+Theorem C16_parse_accepts_only_exact_text : forall path_ok hdparse child_ok s d,
+  parse_plain path_ok hdparse child_ok s = Ok d ->
+  exists ds krs,
+    Forall digitP ds /\ ~ In 10 krs /\ desc_checksum (d_text d) = Ok (d_checksum d) /\
+    ((unescape s = prefix16 ++ ds ++ 44 :: krs ++ [41; 41] /\ ~ In 35 (unescape s) /\
+      parse_groups path_ok hdparse child_ok ds krs [] = Ok d) \/
+     (unescape s = prefix16 ++ ds ++ 44 :: krs ++ [41; 41; 35] ++ d_checksum d /\
+      cs_ok (d_checksum d) /\
+      parse_groups path_ok hdparse child_ok ds krs (d_checksum d) = Ok d)).
+Proof. exact parse_plain_shape. Qed.
+Print Assumptions C16_parse_accepts_only_exact_text.
+
+(* (2) THE SEPARATOR (the former finding C16-separator-substitution-skips-checksum, fixed by
+   dfc700c): whatever stands before it, a text that ends with a character other than "#"
+   followed by 8 checksum characters is rejected — for every body, every replacement
+   character (in or outside the descriptor charset). *)
+Theorem C16_parse_rejects_damaged_separator : forall path_ok hdparse child_ok T c cs,
+  c <> 35 -> cs_ok cs -> parse_plain path_ok hdparse child_ok (T ++ c :: cs) = Err.
+Proof. exact parse_plain_rejects_damaged_separator. Qed.
+Print Assumptions C16_parse_rejects_damaged_separator.
+
+(* after "#", anything that is not exactly 8 checksum characters is rejected: an empty, short
+   or long checksum, a foreign character in it, text after a valid checksum *)
+Theorem C16_parse_rejects_malformed_checksum : forall path_ok hdparse child_ok T cs,
+  ~ In 35 cs -> (~ In 92 cs \/ ~ In 47 cs) -> ~ cs_ok cs ->
+  parse_plain path_ok hdparse child_ok (T ++ 35 :: cs) = Err.
+Proof. exact parse_plain_rejects_malformed_checksum. Qed.
+Print Assumptions C16_parse_rejects_malformed_checksum.
+
+Theorem C16_parse_rejects_trailing_text : forall path_ok hdparse child_ok T cs junk,
+  cs_ok cs -> junk <> [] -> ~ In 35 junk -> ~ In 92 junk ->
+  parse_plain path_ok hdparse child_ok (T ++ 35 :: cs ++ junk) = Err.
+Proof. exact parse_plain_rejects_trailing_text. Qed.
+Print Assumptions C16_parse_rejects_trailing_text.
+
+(* the checksum written in an accepted text is verified: it is the checksum of the text the
+   parser prints back *)
+Theorem C16_written_checksum_is_verified : forall path_ok hdparse child_ok T cs d,
+  cs_ok cs -> parse_plain path_ok hdparse child_ok (T ++ 35 :: cs) = Ok d ->
+  d_checksum d = cs /\ desc_checksum (d_text d) = Ok cs.
+Proof. exact parse_plain_checksummed. Qed.
+Print Assumptions C16_written_checksum_is_verified.
+
+(* (2) single-character alterations at the level of parse.
+
+   CHECKSUM positions — proved outright: in the text the constructor prints, replacing any one
+   of the 8 checksum characters by ANY other character (of any charset; "#" and backslash
+   included) makes parse fail; so does any other well-formed checksum. *)
+Theorem C16_parse_detects_checksum_char_substitution :
+  forall path_ok hdparse child_ok m recs cs srt d l1 x y l2,
+  hd_idempotent hdparse -> path_norm_ok path_ok -> path_chars_ok path_ok -> hd_alnum hdparse ->
+  construct path_ok hdparse m recs cs srt = Ok d -> m < 2 ^ 4300 ->
+  Forall (fun kr => child_ok (kr_xpub kr) (kr_idx kr) = true) (d_recs d) ->
+  d_checksum d = l1 ++ x :: l2 -> y <> x ->
+  parse_plain path_ok hdparse child_ok (d_text d ++ 35 :: l1 ++ y :: l2) = Err.
+Proof. exact constructed_text_checksum_char_detected. Qed.
+Print Assumptions C16_parse_detects_checksum_char_substitution.
+
+Theorem C16_parse_rejects_wrong_checksum_on_text :
+  forall path_ok hdparse child_ok m recs cs srt d cs',
+  hd_idempotent hdparse -> path_norm_ok path_ok -> path_chars_ok path_ok -> hd_alnum hdparse ->
+  construct path_ok hdparse m recs cs srt = Ok d -> m < 2 ^ 4300 ->
+  Forall (fun kr => child_ok (kr_xpub kr) (kr_idx kr) = true) (d_recs d) ->
+  cs_ok cs' -> cs' <> d_checksum d ->
+  parse_plain path_ok hdparse child_ok (d_text d ++ 35 :: cs') = Err.
+Proof. exact constructed_text_wrong_checksum. Qed.
+Print Assumptions C16_parse_rejects_wrong_checksum_on_text.
+
+(* BODY positions — partial.  Full statement (NOT proved):
+     forall d constructed, body = d_text d = l1 ++ x :: l2, y in the input charset, y <> x:
+       parse_plain ((l1 ++ y :: l2) ++ "#" ++ d_checksum d) = Err.
+   Proved: IF parse accepts the altered text at all, then it did not read it as written (the
+   text it prints back differs from the altered body) — a verbatim reading is excluded by
+   C16_desc_checksum_detects_single.  Non-verbatim readings exist (see
+   C16_non_verbatim_reading_example: "+5" for an account index; also a "*" after the
+   fingerprint, white space at the end of a path, a SLIP-132 xpub); for them detection rests
+   on the 40-bit checksum of a DIFFERENT, re-printed text, which no substitution-distance
+   argument covers; the exhaustive substitution sweep on sampled descriptors exercises it. *)
+Theorem C16_parse_detects_body_substitution_partial : forall path_ok hdparse child_ok l1 x y l2 cs d,
+  desc_checksum (l1 ++ x :: l2) = Ok cs -> In y desc_input_charset -> x <> y ->
+  parse_plain path_ok hdparse child_ok ((l1 ++ y :: l2) ++ 35 :: cs) = Ok d ->
+  d_text d <> l1 ++ y :: l2.
+Proof. exact parse_plain_body_substitution. Qed.
+Print Assumptions C16_parse_detects_body_substitution_partial.
+
+(* the same for ANY body (not only constructor output) under a different well-formed checksum *)
+Theorem C16_checksum_substitution_not_read_verbatim : forall path_ok hdparse child_ok body cs cs' d,
+  desc_checksum body = Ok cs -> cs_ok cs' -> cs' <> cs ->
+  parse_plain path_ok hdparse child_ok (body ++ 35 :: cs') = Ok d ->
+  d_text d <> body.
+Proof. exact parse_plain_checksum_substitution. Qed.
+Print Assumptions C16_checksum_substitution_not_read_verbatim.
+
+(* =======================================================================================
+   get_address                                                                             *)
+
+(* (5) the witness script byte for byte, for 1 <= m, n <= 16 and 33-byte child keys *)
+Theorem C16_witness_script_bytes : forall derive d off chg srt ks,
+  1 <= d_m d <= 16 -> 1 <= zlen (d_recs d) <= 16 -> 0 <= off ->
+  derives_all derive (d_recs d) chg off ks -> Forall key33 ks ->
+  witness_script derive d off chg srt =
+    Ok ([d_m d + 80] ++
+        concat (map (cons 33) (if srt then sort_by (fun k => k) ks else ks)) ++
+        [zlen (d_recs d) + 80; 174]).
+Proof. exact witness_script_bytes. Qed.
+Print Assumptions C16_witness_script_bytes.
+
+Theorem C16_get_address_total : forall derive sha256 p2wsh_address d off chg srt ks,
+  1 <= d_m d <= 16 -> 1 <= zlen (d_recs d) <= 16 -> 0 <= off ->
+  derives_all derive (d_recs d) chg off ks -> Forall key33 ks ->
+  exists ws, witness_script derive d off chg srt = Ok ws /\
+    get_address derive sha256 p2wsh_address d off chg srt = Ok (p2wsh_address (sha256 ws) (d_net d)).
+Proof. exact get_address_total. Qed.
+Print Assumptions C16_get_address_total.
+
+Theorem C16_witness_script_shape_unsorted : forall derive d off chg ws,
+  witness_script derive d off chg false = Ok ws ->
+  exists ks om on,
+    derives_all derive (d_recs d) chg off ks /\
+    number_to_op_code (d_m d) = Ok om /\ number_to_op_code (zlen (d_recs d)) = Ok on /\
+    0 <= off /\ ser_cmds (Op om :: map Push ks ++ [Op on; Op 174]) = Ok ws.
+Proof. exact witness_script_shape_unsorted. Qed.
+Print Assumptions C16_witness_script_shape_unsorted.
+
+(* (4) two descriptors CONSTRUCTED from the same key records in different orders (sorted or not,
+   with or without checksum): same witness script and same address at every (offset, branch) *)
+Theorem C16_constructed_address_order_independent :
+  forall path_ok hdparse derive sha256 p2wsh_address m recs recs' cs cs' srt srt' d d' off chg,
+  Permutation recs recs' ->
+  construct path_ok hdparse m recs cs srt = Ok d ->
+  construct path_ok hdparse m recs' cs' srt' = Ok d' ->
+  witness_script derive d off chg true = witness_script derive d' off chg true /\
+  get_address derive sha256 p2wsh_address d off chg true =
+  get_address derive sha256 p2wsh_address d' off chg true.
+Proof. exact constructed_address_order_independent. Qed.
+Print Assumptions C16_constructed_address_order_independent.
+
+(* (5) receive = change at one offset means: a SHA-256 collision (exhibited), or some cosigner's
+   child key at (account_index, offset) is some cosigner's child key at (account_index + 1,
+   offset) — two different BIP32 children with the same key (C08) *)
+Theorem C16_branches_coincide_keys : forall derive sha256 p2wsh_address d off a,
+  (forall h h' n, p2wsh_address h n = p2wsh_address h' n -> h = h') ->
+  (forall x acc i k, derive x acc i = Ok k -> length k = 33%nat) ->
+  d_recs d <> [] ->
+  get_address derive sha256 p2wsh_address d off false true = Ok a ->
+  get_address derive sha256 p2wsh_address d off true true = Ok a ->
+  (exists s s', s <> s' /\ sha256 s = sha256 s') \/
+  (exists kr1 kr2 k, In kr1 (d_recs d) /\ In kr2 (d_recs d) /\
+     derive (kr_xpub kr1) (kr_idx kr1) off = Ok k /\
+     derive (kr_xpub kr2) (kr_idx kr2 + 1) off = Ok k).
+Proof. exact branches_coincide_keys. Qed.
+Print Assumptions C16_branches_coincide_keys.
+
+(* ---- non-vacuity of the new theorems: a toy HD layer satisfying all four hypotheses, and the
+   round trip / rejections computed on it ---- *)
+Example C16_hypotheses_satisfiable :
+  hd_idempotent ex_hdparse2 /\ path_norm_ok ex_path_ok2 /\ path_chars_ok ex_path_ok2 /\ hd_alnum ex_hdparse2.
+Proof. exact ex_hypotheses. Qed.
+
+Definition ex_json (s : list Z) : result (list Z) := Err.
+Definition ex_rec2 (x : Z) (path : list Z) (up : bool) (idx : Z) : keyrec :=
+  {| kr_xfp := if up then [65; 49; 50; 51; 52; 53; 54; 55] else [97; 49; 50; 51; 52; 53; 54; 55];
+     kr_path := path; kr_xpub := [120; 112; 117; 98; x]; kr_idx := idx |}.
+
+(* records given as "M/48h " (upper-case M, trailing blank) with an upper-case fingerprint and
+   as " m/7'" (leading blank): the constructor stores "m/48h", "m/7'" and a1234567, and its
+   text — here with blanks and a line feed around it — parses back to the same object *)
+Example C16_parse_text_roundtrip_example :
+  exists d,
+    construct ex_path_ok2 ex_hdparse2 2
+      [ex_rec2 66 [77; 47; 52; 56; 104; 32] true 5; ex_rec2 65 [32; 109; 47; 55; 39] false 2147483647] [] true = Ok d /\
+    d_recs d = [ex_rec2 65 [109; 47; 55; 39] false 2147483647; ex_rec2 66 [109; 47; 52; 56; 104] false 5] /\
+    parse_text ex_path_ok2 ex_hdparse2 ex_child_ok ex_json ([32; 9] ++ desc_repr d ++ [10]) = Ok d /\
+    parse_text ex_path_ok2 ex_hdparse2 ex_child_ok ex_json (d_text d) = Ok d /\
+    (* "#" replaced by "!" and by a blank, text after the checksum, text before wsh( *)
+    parse_text ex_path_ok2 ex_hdparse2 ex_child_ok ex_json (d_text d ++ 33 :: d_checksum d) = Err /\
+    parse_text ex_path_ok2 ex_hdparse2 ex_child_ok ex_json (d_text d ++ 32 :: d_checksum d) = Err /\
+    parse_text ex_path_ok2 ex_hdparse2 ex_child_ok ex_json (desc_repr d ++ [113]) = Err /\
+    parse_text ex_path_ok2 ex_hdparse2 ex_child_ok ex_json (120 :: desc_repr d) = Err.
+Proof.
+  eexists. split; [vm_compute; reflexivity|]. split; [vm_compute; reflexivity|].
+  repeat split; vm_compute; reflexivity.
+Qed.
+
+(* the same with the transcribed path check: "M/48H/0'//2h " is a valid path, stored as
+   "m/48H/0'//2h" and read back *)
+Example C16_parse_text_roundtrip_valid_paths_example :
+  exists d,
+    construct is_valid_path ex_hdparse2 1
+      [ex_rec2 66 (s2z "M/48H/0'//2h ") true 0] [] true = Ok d /\
+    d_recs d = [ex_rec2 66 (s2z "m/48H/0'//2h") false 0] /\
+    parse_text is_valid_path ex_hdparse2 ex_child_ok ex_json (desc_repr d) = Ok d.
+Proof. eexists. split; [vm_compute; reflexivity|]. split; vm_compute; reflexivity. Qed.
+
+(* a non-verbatim reading: the account index written "+5" is accepted without a checksum and
+   printed back as "5" (so d_text differs from the text that was parsed) *)
+Example C16_non_verbatim_reading_example :
+  let t := s2z "wsh(sortedmulti(1,[a1234567/1]xpubA/+5/*))" in
+  exists d, parse_text ex_path_ok2 ex_hdparse2 ex_child_ok ex_json t = Ok d /\
+            d_text d = s2z "wsh(sortedmulti(1,[a1234567/1]xpubA/5/*))".
+Proof. eexists. split; vm_compute; reflexivity. Qed.
+
+(* the witness script bytes on a toy derivation (33-byte keys that sort differently from their
+   records) *)
+Example C16_witness_script_bytes_example :
+  let derive := fun (x : list Z) (a o : Z) => Ok (repeatz (nth 4 x 0 + a + o) 33) in
+  let d := {| d_m := 1; d_recs := [ex_rec2 66 [109] false 0; ex_rec2 65 [109] false 7]; d_text := [];
+              d_checksum := []; d_net := 0 |} in
+  witness_script derive d 3 true true =
+    Ok ([81] ++ (33 :: repeatz 70 33) ++ (33 :: repeatz 76 33) ++ [82; 174]).
+Proof. vm_compute. reflexivity. Qed.
